@@ -303,7 +303,10 @@ def gen_overflow(r: random.Random, fam: str):
     return None
 
 
-POSITIONS = ['normal', 'subnormal', 'zero_gap', 'below_pow2', 'top_binade', 'top_gap']
+POSITIONS = ['normal', 'subnormal', 'zero_gap', 'below_pow2', 'top_binade', 'top_gap', 'far']
+# widths (in digits above the rounding position / exponents above the smallest) of the 'far' operands:
+# around the sizes at which an implementation may switch representation (machine words, double, quad)
+FAR = list(range(48, 72)) + list(range(56, 68)) + [100, 112, 113, 114, 127, 128, 129, 200, 1023, 1024, 1025, 1074]
 
 
 def gen_operand(r: random.Random, grid: dict, k_eff: int, negative: bool, want: str):
@@ -327,6 +330,13 @@ def gen_operand(r: random.Random, grid: dict, k_eff: int, negative: bool, want: 
         hi_m = 200 if top is None else top - 1
         if hi_m < 1:
             return None
+        if want == 'far':
+            # an operand many digits wide above the rounding position
+            b = r.choice(FAR)
+            m = (1 << (b - 1)) | r.getrandbits(b - 1)
+            if top is not None and m > hi_m:
+                return None
+            return m, qe, 'far'
         if want == 'below_pow2':
             b = r.randint(1, max(1, hi_m.bit_length()))
             m = (1 << b) - 1
@@ -372,7 +382,12 @@ def gen_operand(r: random.Random, grid: dict, k_eff: int, negative: bool, want: 
     e_hi = (e_top if e_top is not None else e_lo + 10)
     if e_hi < e_lo:
         return None
-    if want == 'top_binade' and e_top is not None:
+    if want == 'far':
+        # a binade far above the smallest one (unbounded formats only)
+        if e_top is not None:
+            return None
+        e = e_lo + r.choice(FAR)
+    elif want == 'top_binade' and e_top is not None:
         e = e_top
     else:
         e = r.randint(e_lo, e_hi)
@@ -388,7 +403,7 @@ def gen_operand(r: random.Random, grid: dict, k_eff: int, negative: bool, want: 
         if m2 < (1 << (p - 1)):
             return None
         m = r.randint(1 << (p - 1), m2)
-    return m, qe, (want if want in ('below_pow2', 'top_binade') else 'normal')
+    return m, qe, (want if want in ('below_pow2', 'top_binade', 'far') else 'normal')
 
 
 def gen_offset(r: random.Random, k: int, allow_nondyadic: bool):
@@ -485,8 +500,11 @@ def _mk_value(absx: Fraction, negative: bool, enc: str, tz: int):
     if enc == 'frac':
         return v, 'frac'
     if enc == 'pyfloat':
-        f = float(v)
-        if Fraction(f) == v:
+        try:
+            f = float(v)
+        except OverflowError:
+            f = None
+        if f is not None and Fraction(f) == v:
             return f, 'pyfloat'
         enc = 'real'
     r = RealFloat.from_rational(absx)
